@@ -156,7 +156,7 @@ partial def expandLoop (tbl : Table) : XM Unit := do
               backUp; replaceTok ctok; expandLoop tbl
             else
               let _ ← consumeTok
-              let args ← collectArgs [] [] 1
+              let args ← collectArgs (if m.variadic then some ((m.args.getD []).length - 1) else none) [] [] 1
               let mut pre : List Arg := []
               let mut i := 0
               for a in args do
@@ -177,13 +177,14 @@ partial def expandLoop (tbl : Table) : XM Unit := do
             xpush repl m.name
             expandLoop tbl
 
-partial def collectArgs (args : List (List Tok)) (cur : List Tok) (depth : Nat) : XM (List (List Tok)) := do
+partial def collectArgs (vk : Option Nat) (args : List (List Tok)) (cur : List Tok) (depth : Nat) : XM (List (List Tok)) := do
   let tok ← consumeTok
-  if dtextOld tok == "," && depth == 1 then collectArgs (args ++ [cur]) [] depth
-  else if dtextOld tok == "(" then collectArgs args (cur ++ [tok]) (depth + 1)
+  -- `vk`: for a variadic macro, the number of commas that separate (trailing arguments and their commas are one argument)
+  if dtextOld tok == "," && depth == 1 && (match vk with | some k => decide (args.length < k) | none => true) then collectArgs vk (args ++ [cur]) [] depth
+  else if dtextOld tok == "(" then collectArgs vk args (cur ++ [tok]) (depth + 1)
   else if dtextOld tok == ")" then
-    if depth == 1 then pure (args ++ [cur]) else collectArgs args (cur ++ [tok]) (depth - 1)
-  else collectArgs args (cur ++ [tok]) depth
+    if depth == 1 then pure (args ++ [cur]) else collectArgs vk args (cur ++ [tok]) (depth - 1)
+  else collectArgs vk args (cur ++ [tok]) depth
 
 /-- expand(tokens, ident, pre_expand) -/
 partial def expandCall (tbl : Table) (toks : List Tok) (pre : Bool) : XM (List Tok) := do
